@@ -17,7 +17,11 @@ import (
 
 const Rule = "cases = (tree kind, comparator, history) drawn from VERIF_SEED: keys inserted in sorted, reverse-sorted, " +
 	"zig-zag or random order (4-300 keys quick, up to 10^4 thorough), then a churn phase of Delete (present and absent " +
-	"keys), DeleteMin, DeleteMax and re-insertions; after every mutator (small tables) or periodically (large ones) a " +
+	"keys), DeleteMin, DeleteMax, re-insertions and now and then SelectMatch/PartitionMatch (the history goes on with the " +
+	"derived table); a third of the small cases then empty the table (DeleteAll or draining), call the three deletes and " +
+	"Height on the empty table and refill it; Traverse in all eight orders and an invalid one, with and without a stopping " +
+	"visitor; plus mixed histories of package c01's generator (every query, two tables) with a check after every mutator; " +
+	"after every mutator (small tables) or periodically (large ones) a " +
 	"`height` call, at which the harness rebuilds the shape from the pre-order and in-order traversals and checks " +
 	"Height() = longest root-to-leaf path, AVL: every node's subtree heights differ by <= 1 and cached = real heights, " +
 	"Red-Black: black root, no red right link, no two reds in a row, equal black height on every path, " +
@@ -192,6 +196,10 @@ func order(r *hx.Rand, family string, n int) []int {
 	return ks
 }
 
+var orderNames = []string{"vlr", "vrl", "lvr", "rvl", "lrv", "rlv", "ascending", "descending", "other"}
+
+var derivePreds = []string{"true", "kmod 2 0", "kmod 3 1", "vmod 2 1", "klt 7", "sumlt 12"}
+
 var Families = []string{"sorted", "reverse", "zigzag", "random"}
 
 // GenHistory: fill in the given order, then churn; `height` (and `dump`) every `every` mutators.
@@ -206,6 +214,10 @@ func GenHistory(r *hx.Rand, family string, n, churn, every int, small bool) []st
 				ops = append(ops, "dump")
 				if r.Chance(1, 4) {
 					ops = append(ops, "traverse vlr 0", "traverse lvr 0", "size")
+				}
+				if r.Chance(1, 6) {
+					// the other orders of _traverse (and an order that is none of the eight), with and without a visitor that stops
+					ops = append(ops, fmt.Sprintf("traverse %s %d", hx.Pick(r, orderNames), r.Intn(2)*r.Range(1, 5)))
 				}
 			} else if r.Chance(1, 8) {
 				ops = append(ops, "dump")
@@ -222,14 +234,36 @@ func GenHistory(r *hx.Rand, family string, n, churn, every int, small bool) []st
 			ops = append(ops, fmt.Sprintf("delete %d", r.Range(-1, n)))
 		case x < 55:
 			ops = append(ops, "deletemin")
-		case x < 70:
+		case x < 69:
 			ops = append(ops, "deletemax")
+		case x < 70:
+			// the other ways to a table: SelectMatch / PartitionMatch build new tables with Put; carry on with the result
+			if small {
+				ops = append(ops, hx.Pick(r, []string{"selectmatch", "partitionmatch"})+" "+hx.Pick(r, derivePreds), "swap", "height", "dump")
+			} else {
+				ops = append(ops, hx.Pick(r, []string{"selectmatch", "partitionmatch"})+" "+hx.Pick(r, derivePreds), "swap")
+			}
 		default:
 			ops = append(ops, fmt.Sprintf("put %d %d", r.Range(0, n+n/4), r.Intn(10)))
 		}
 		check()
 	}
 	ops = append(ops, "height", "dump", "size")
+	if small && r.Chance(1, 3) {
+		// empty the table (DeleteAll, or one DeleteMin/DeleteMax more than there are keys), look at the empty tree, refill
+		if r.Bool() {
+			ops = append(ops, "deleteall")
+		} else {
+			for j := 0; j < 8 && j < n; j++ {
+				ops = append(ops, hx.Pick(r, []string{"deletemin", "deletemax"}))
+			}
+			ops = append(ops, "deleteall")
+		}
+		ops = append(ops, "height", "dump", "deletemin", "deletemax", "delete 0", "height", "traverse "+hx.Pick(r, orderNames)+" 0", "dump")
+		for _, k := range order(r, family, r.Range(3, 9)) {
+			ops = append(ops, fmt.Sprintf("put %d %d", k, k%10), "height", "dump")
+		}
+	}
 	return ops
 }
 
@@ -280,6 +314,24 @@ func Main(run *hx.Run) {
 			}
 			c := hx.Case{Header: fmt.Sprintf("comp=%s cmp=%s family=%s", comp, cmp, family),
 				Ops: GenHistory(r, family, size, size*2, every, small)}
+			run.Do(comp, c, Exec)
+		}
+	}
+	// mixed histories of package c01 (every query, all eight traversal orders, Equal, the *Match family, two tables) with a
+	// `height` check after every call that can change a table: the query code reads the nodes the invariants are about
+	for _, comp := range []string{"avl", "rb", "bst"} {
+		r := run.R.Fork(comp + "/mixed")
+		n := run.Scale(45)
+		for k := 0; k < n; k++ {
+			var ops []string
+			for _, op := range c01.GenOps(r, 50, r.Range(4, 16)) {
+				ops = append(ops, op)
+				switch strings.Fields(op)[0] {
+				case "put", "delete", "deletemin", "deletemax", "deleteall", "swap", "selectmatch", "partitionmatch":
+					ops = append(ops, "height")
+				}
+			}
+			c := hx.Case{Header: fmt.Sprintf("comp=%s cmp=%s family=mixed dump=1", comp, hx.Pick(r, c01.CmpNames)), Ops: ops}
 			run.Do(comp, c, Exec)
 		}
 	}
